@@ -26,6 +26,8 @@ def _lit(rnd, rich=True):
         return M.lit(rnd.choice(["33001", "3.14", "1e3", "nan", "+8", "-0", "true", "false", "0261103571"]))
     if r < .14:                                            # a line feed inside the lexical form, whatever the kind of the literal
         return rnd.choice([M.lit("l1\nl2", lang="en"), M.lit("x\ny", DT_CUSTOM), M.lit("a\nb"), M.lit("v1\n\nv2", lang="es")])
+    if r < .17:                                            # a link written as a typed literal is a literal (its text may name a node of the graph)
+        return M.lit(EX + rnd.choice(["n0", "n1", "u0", "home"]), M.XSD + "anyURI")
     if r < .4:
         return M.lit("s%d" % rnd.randint(0, 4))
     if r < .6:
@@ -48,7 +50,10 @@ def with_homographs(T, rnd, p=.3):
     lex = str(rnd.randint(5, 9))
     typed = sorted({x for x, q, _o in T if q == M.RDF_TYPE})
     pair = rnd.choice([[M.lit(lex, M.XSD_INTEGER), M.lit(lex)], [M.lit(lex), M.lit(lex, DT_CUSTOM)],
-                       [M.iri(EX + "u0"), M.lit(EX + "u0")], [M.lit("true", M.XSD + "boolean"), M.lit("true")]] +
+                       [M.iri(EX + "u0"), M.lit(EX + "u0")], [M.lit("true", M.XSD + "boolean"), M.lit("true")],
+                       # the same text in two (three) languages: as many values; a link written as an xsd:anyURI literal: a literal
+                       [M.lit("Paris", lang="en"), M.lit("Paris", lang="fr")], [M.lit("Roma", lang="it"), M.lit("Roma", lang="es"), M.lit("Roma", lang="en")],
+                       [M.lit(EX + "u0", M.XSD + "anyURI"), M.iri(EX + "u0")]] +
                       # a literal whose text is the identifier of a typed node: not a link to that node
                       ([[M.lit(n[1])] for n in typed[:3]] if typed else []))
     rnd.shuffle(pair)
@@ -365,6 +370,23 @@ def partly_typed_case(rnd, cid):
     return case(cid, T, **cfg)
 
 
+def typed_fan_graph(rnd):
+    """a few subjects of one class, each with 2-4 IRI objects of one property; the objects belong to different sets of classes
+    (none, one, two), so that which classes a later object adds depends on the order of the statements"""
+    objs = [M.iri(EX + "o%d" % i) for i in range(rnd.randint(3, 5))]
+    T = []
+    for o in objs:
+        for c in rnd.sample(["K0", "K1", "K2"], rnd.choice([0, 1, 1, 2])):
+            T.append((o, M.RDF_TYPE, M.iri(EX + c)))
+    for i in range(rnd.randint(2, 3)):
+        x = M.iri(EX + "x%d" % i)
+        T.append((x, M.RDF_TYPE, M.iri(EX + "A")))
+        for o in rnd.sample(objs, rnd.randint(2, min(4, len(objs)))):
+            T.append((x, EX + "p", o))
+    rnd.shuffle(T)
+    return T
+
+
 def hub_case(rnd, cid):
     """one instance with more than a thousand values of one kind for one property (a hub: sitelinks, citations) - or, with inverse
     paths, more than a thousand incoming arcs - among n instances; the other features sit exactly on k/n thresholds"""
@@ -467,6 +489,34 @@ def single_constraint_case(rnd, cid):
     rnd.shuffle(T)
     return case(cid, T, mode="shapemap", items=items, nsDict=NSDICT, thr=rnd.choice([[0, 1], [0, 1], [1, 2]]), keepLess=rnd.random() < .5,
                 report="mixed", comments=True)
+
+
+def inverse_or_case(rnd, cid):
+    """incoming links of one property from the nodes of two or three shape-map shapes: with inverse paths and disjunctions the
+    target shape holds '^ p @LA OR @LB ...'; all source shapes but one have no feature shared by their nodes, so above some
+    threshold they are removed as empty and the disjunction is left with a single arm"""
+    nt_ = rnd.randint(2, 3)
+    Ts = [M.iri(EX + "t%d" % i) for i in range(nt_)]
+    k = rnd.randint(2, 3)
+    T, items = [], []
+    for x in Ts:
+        items.append({"label": EX + "shapes/LT", "labelSpelling": "bracket", "spelling": "bracket", "kind": "node", "node": list(x)})
+        T.append((x, EX + "title", M.lit("t")))
+    for j in range(k):
+        src = [M.iri(EX + "s%d_%d" % (j, i)) for i in range(2)]
+        for i, x in enumerate(src):
+            items.append({"label": EX + "shapes/L%d" % j, "labelSpelling": "bracket", "spelling": "bracket", "kind": "node", "node": list(x)})
+            if j == 0:
+                T.append((x, EX + "name", M.lit("n")))          # the surviving arm: its nodes share a feature
+            else:
+                T.append((x, EX + "odd%d_%d" % (j, i), M.lit("o")))
+        for t_ in Ts:                                           # one node of every source shape points to every target
+            T.append((src[0], EX + "p", t_))
+        if rnd.random() < .5:
+            T.append((src[1], EX + "p", Ts[0]))
+    rnd.shuffle(T)
+    return case(cid, T, mode="shapemap", items=items, nsDict=NSDICT, inverse=True, disableOr=False, redundantOr=rnd.random() < .5,
+                removeEmpty=True, thr=rnd.choice([[0, 1], [1, 2], [3, 4], [1, 1]]), allCompliant=rnd.random() < .5)
 
 
 def tied_focus_case(rnd, cid):
